@@ -61,9 +61,9 @@ func randomOps(r *prng.R, n int) []Op {
 // C09: seeded operation histories over {MoveNext, Current, Send, Result} against the
 // sequential reference model (unstarted / suspended / done).
 func C09(j *core.Job) {
-	maxLen, perBatch := 12, 1500
+	maxLen, perBatch := 12, 30000
 	if j.Thorough() {
-		maxLen, perBatch = 40, 6000
+		maxLen, perBatch = 40, 100000
 	}
 	rep := j.Rep
 	for _, k := range []string{"op_MoveNext", "op_Current", "op_Send", "op_Result", "result_before_completion_masked", "ops_after_exhaustion", "send_on_unstarted"} {
